@@ -20,7 +20,7 @@ from vf import REPO
 from vf.build import build_ufo
 from vf.gen import outlines
 from vf.mon import snap as M
-from vf.props import c15
+from vf.props import c14_pipeline, c15
 from vf.props.c01 import prune_size, max_abs_coord
 
 ID = "C14"
@@ -50,7 +50,8 @@ IFILTERS = ["DecomposeComponentsIFilter", "DecomposeTransformedComponentsIFilter
 NONVACUITY = ["evaluated_" + f for f in FILTERS + IFILTERS] + [
     "select_include", "select_exclude", "select_predicate", "select_all", "target_inplace",
     "target_copy", "reuse_histories", "untouched_glyphs_checked", "reported_glyphs",
-    "changed_glyphs"]
+    "changed_glyphs", "pipeline_steps_observed", "pipeline_per_master_steps",
+    "pipeline_coherence_instantiations", "pipeline_steps_that_changed_glyphs"]
 
 
 def n_cases(tier):
@@ -93,6 +94,8 @@ def perturbed(rng, glyphs):
 
 
 def gen(rng, idx, tier):
+    if idx >= len(FILTERS) + len(IFILTERS) and rng.random() < 0.07:
+        return c14_pipeline.gen_pipeline(rng)
     interp = rng.random() < 0.25
     name = rng.choice(IFILTERS if interp else FILTERS)
     if idx < len(FILTERS) + len(IFILTERS):
@@ -160,6 +163,8 @@ def gen(rng, idx, tier):
 
 
 def sample_view(case):
+    if case.get("pipeline"):
+        return c14_pipeline.sample_view(case)
     v = {k: case.get(k) for k in ("filter", "interp", "lib", "reuse", "target", "select",
                                   "options", "fixture")}
     if "fonts" in case:
@@ -248,6 +253,8 @@ def apply_once(case, filt, fonts, target, bump):
 
 
 def run(case):
+    if case.get("pipeline"):
+        return c14_pipeline.run_pipeline(case)
     counters = {}
 
     def bump(k, n=1):
@@ -395,6 +402,8 @@ def perturbed_fixed(glyphs):
 
 
 def classify(v, case):
+    if case.get("pipeline"):
+        return None
     name = case["filter"]
     if name == "ExplodeColorLayerGlyphsFilter" and v["mech"] in (
             "source_font_modified", "untouched_glyph_changed", "reused_filter_differs_from_fresh"):
